@@ -190,6 +190,13 @@ EXC = ["java.lang.RuntimeException: ", "org.javarosa.xpath.XPathUnhandledExcepti
        "org.javarosa.xform.parse.XFormParseException"]
 BREAKS = ["\n", "\n", "\n", "\r\n", "\r", "\x0b", "\x0c", "\x1c", "\x1d", "\x1e", "\x85", " ", " "]
 JARFILE = "Error: Unable to access jarfile"
+# the full set of `str.splitlines()` boundaries (pinned against the interpreter by the table c18LineBreaks)
+LINE_BOUNDARIES = ["\n", "\r", "\x0b", "\x0c", "\x1c", "\x1d", "\x1e", "\x85", "\u2028", "\u2029"]
+SEPARATORS = LINE_BOUNDARIES + ["\r\n", "\n\r", "\r\r\n", "\r\n\n"]
+# what `str.strip()` removes (table c18StripBlanks) and a few look-alikes it does not remove
+STRIP_BLANKS = [chr(n) for n in (9, 10, 11, 12, 13, 28, 29, 30, 31, 32, 0x85, 0xA0, 0x1680, 0x2000, 0x2001, 0x2002, 0x2003, 0x2004,
+                                 0x2005, 0x2006, 0x2007, 0x2008, 0x2009, 0x200A, 0x2028, 0x2029, 0x202F, 0x205F, 0x3000)]
+NOT_BLANKS = ["\u200b", "\ufeff", "\x00", "\x1b", "\u180e", "\u2060"]
 
 
 NAME_PIECES = ["first", "name", "hh", "member", "count", "age", "q", "grp", "Village", "id", "x"]
@@ -266,6 +273,55 @@ def gen_stderr(rng, p_odd=0.0, directed=True):
     return out
 
 
+def separator_cases(ctx, rng, factor=1):
+    """Phase 8 stream: the cleaner over the FULL set of Python line boundaries (theorems splitlines_subPaths,
+    strip_subPaths, cleaner_end_to_end_all).  (1) bounded-exhaustive: every ordered pair of separators (10 boundary
+    characters, `\\r\\n`, `\\n\\r`, `\\r\\r\\n`, `\\r\\n\\n`) between three lines, for templates with paths glued directly to the
+    separators, duplicates across different separators, a stack frame between odd separators; (2) every strip blank and
+    some non-blank look-alikes as padding; (3) generated diagnostics whose lines are joined by random separators."""
+    templates = [
+        ("/data/g/q1", "/data/g/q1", "x /data/q2"),          # paths glued to the separators, duplicate lines
+        ("Error in /data/g/q1", "\tat org.Foo.bar(Foo.java:3)", "Error in /data/g/q1"),  # duplicates only after a frame is gone
+        ("a/data/g", "", "/html/body/x /root/q/item/value"),   # empty middle line (lost between \\r and \\n), kept families
+        ("java.lang.RuntimeException: /a/b", "java.lang.NullPointerException", "${b}"),
+    ]
+    n = 0
+    for s1 in SEPARATORS:
+        for s2 in SEPARATORS:
+            for a, b, c in templates:
+                cleaner_case(ctx, a + s1 + b + s2 + c)
+                n += 1
+    for sep in SEPARATORS:
+        cleaner_case(ctx, sep + "/a/b" + sep + sep + "/a/b" + sep)
+        cleaner_case(ctx, "/a/b" + sep + "/c")       # a match must not cross the separator …
+        cleaner_case(ctx, "/a" + sep + "b/c/d")      # … nor be assembled across it
+        n += 3
+    for pad in STRIP_BLANKS + NOT_BLANKS:
+        cleaner_case(ctx, pad + "/data/g/q1" + pad)
+        cleaner_case(ctx, pad + pad + "x /data/g/q1" + pad + "y" + pad + "\n" + pad)
+        n += 2
+    for _ in range(ctx.pick(1000, 40000) * min(factor, 3)):
+        lines = []
+        for _ in range(rng.randint(1, 6)):
+            ln = gen_line(rng, 0.1)
+            r = rng.random()
+            if r < 0.25:
+                ln = ln + rng.choice(["", " "]) + gen_path(rng)   # a path right before the separator
+            elif r < 0.4:
+                ln = gen_path(rng) + ln
+            lines.append(ln)
+            if rng.random() < 0.3:
+                lines.append(ln)
+        text = rng.choice(["", "", rng.choice(STRIP_BLANKS), rng.choice(SEPARATORS)])
+        for ln in lines:
+            text += ln + rng.choice(SEPARATORS)
+        if rng.random() < 0.4:
+            text = text.rstrip() if rng.random() < 0.5 else text + rng.choice(STRIP_BLANKS + NOT_BLANKS)
+        cleaner_case(ctx, text)
+        n += 1
+    ctx.count("clean-separator-stream", n)
+
+
 # ----------------------------------------------------------------------------- cleaner oracle
 
 TOKEN_PATH = re.compile(r"^/[\w.\-]+(?:/[\w.\-]+)+$")
@@ -319,6 +375,26 @@ def cleaner_case(ctx, text, where="fn", odk=None):
     m = ctx.driver.call("c18.clean", msg=text)
     if m["out"] != out:
         ctx.mismatch("ErrorCleaner.odk_validate vs Validator.odkValidate", case, out, m["out"])
+    # tighter tie (phase 8): the intermediate results the theorems `splitlines_subPaths` / `strip_subPaths` /
+    # `cleaner_lines_all` speak about — the substituted text and the de-duplicated line list — are compared too
+    from pyxform.validators.error_cleaner import ERROR_MESSAGE_REGEX
+
+    sub = ERROR_MESSAGE_REGEX.sub(ErrorCleaner._replace_xpath_with_tokens, text)
+    if m.get("sub") != sub:
+        ctx.mismatch("ERROR_MESSAGE_REGEX.sub vs Validator.subPaths", case, sub, m.get("sub"))
+    lines = list(ErrorCleaner._cleanup_errors(text))
+    if m.get("lines") != lines:
+        ctx.mismatch("ErrorCleaner._cleanup_errors vs Validator.cleanupErrors", case, lines, m.get("lines"))
+    # the closed form proved for the model for EVERY text (`cleaner_end_to_end_all`), evaluated with the
+    # implementation's own pieces: strip, splitlines, per-line substitution, dedup, stack-line removal, "\n"-join
+    if JARFILE not in text:
+        per_line = [ERROR_MESSAGE_REGEX.sub(ErrorCleaner._replace_xpath_with_tokens, ln) for ln in text.strip().splitlines()]
+        nodup = [ln for i, ln in enumerate(per_line) if i == 0 or ln != per_line[i - 1]]
+        closed = "\n".join(x for x in (ErrorCleaner._remove_java_content(ln) for ln in nodup) if x is not None)
+        if closed != out:
+            ctx.mismatch("ErrorCleaner.odk_validate vs the line-by-line closed form (theorem cleaner_end_to_end_all)", case, out, closed)
+        if any(ch in out for ch in LINE_BOUNDARIES if ch != "\n"):
+            ctx.mismatch("a line boundary other than \\n survives in the message (theorem cleaner_lines_noBreak)", case, out, closed)
     for kind, detail, extra in cleaner_oracle(text, out):
         ctx.fail(Failure(kind, detail, case, extra=dict(extra, text=text, out=out)))
     nontrivial = "/" in text or "\tat" in text or ".java:" in text
@@ -716,6 +792,7 @@ def explore(ctx, factor, bs):
         cleaner_case(ctx, pre + rng.choice(["", "Foo", "x y"]) + mk[:i] + pre + mk[i:] + rng.choice(["", "12 broke", " org.X.y(Z)"]) + "\n" + rng.choice(["", "kept /data/g/q1\n"]))
     for i in range(ctx.pick(60, 600)):
         cleaner_case(ctx, gen_stderr(rng, p_odd=0.5, directed=False))
+    separator_cases(ctx, rng, factor)
     phases["args+cleaner"] = round(time.time() - t0, 1)
     # (c) the matrix
     with c18_env.Sandbox() as sb:
